@@ -110,3 +110,32 @@ def ocsp_response(d, name, ca_crt, ca_key, responder_crt, responder_key, about_c
     run(["ocsp", "-issuer", ca_crt, "-cert", about_crt, "-no_nonce", "-reqout", req])
     run(["ocsp", "-index", idx, "-CA", ca_crt, "-rsigner", responder_crt, "-rkey", responder_key, "-reqin", req, "-respout", resp, "-ndays", str(ndays)])
     return resp
+
+
+TSA_EXT = "basicConstraints=critical,CA:FALSE\nkeyUsage=critical,digitalSignature\nextendedKeyUsage=critical,timeStamping\nsubjectKeyIdentifier=hash\nauthorityKeyIdentifier=keyid\n"
+
+
+def tsa_config(d, name, tsa_crt, tsa_key, chain_pem):
+    """an `openssl ts -reply` configuration; returns its path"""
+    cfg = os.path.join(d, name + ".tsa.cnf")
+    serial = os.path.join(d, name + ".tsaserial")
+    open(serial, "w").write("01\n")
+    open(cfg, "w").write("""[tsa]
+default_tsa = tsa_config
+[tsa_config]
+dir = %s
+serial = %s
+crypto_device = builtin
+signer_cert = %s
+certs = %s
+signer_key = %s
+signer_digest = sha256
+default_policy = 1.2.3.4.1
+digests = sha256, sha384, sha512
+accuracy = secs:1
+ordering = yes
+tsa_name = yes
+ess_cert_id_chain = no
+ess_cert_id_alg = sha256
+""" % (d, serial, tsa_crt, chain_pem, tsa_key))
+    return cfg
